@@ -193,9 +193,24 @@ TARGETS: Dict[str, Dict[str, Any]] = {
         "helpers": [{"py": "PluginRef.supports", "params": {"other": "PluginRef"}}],
         "model": "coq/Toc/Query.v (tversions, vcompat)",
     },
+    "ovpaths": {
+        "source": "src/metador_core/ih5/overlay.py",
+        "header": ("(* the only state of an IH5Node read by the path helpers: its absolute group path *)\n"
+                   "Definition py_node_gpath (g : string) : string := g.\n"),
+        "records": {"Node": {"coq": "string", "fields": {"_gpath": ("py_node_gpath", "str")}}},
+        "functions": [
+            {"py": "IH5Node._parent_path", "params": {"self": "Node"}},
+            {"py": "IH5Node._rel_path", "params": {"self": "Node"}},
+            {"py": "IH5Node._abs_path", "params": {"self": "Node"}}],
+        "outside_subset": ["IH5Node.__post_init__", "IH5Node._files", "IH5Node.__hash__", "IH5Node.__bool__",
+                           "IH5Node._last_idx", "IH5Node._is_read_only", "IH5Node._guard_open",
+                           "IH5Node._guard_read_only", "IH5Node._guard_value", "IH5Node._latest_idx",
+                           "IH5Node._inspect_path"],
+        "model": "none (laws stated directly on the translated code: absolute/relative normal form, _rel_path . _abs_path round trip, parent of root, parent of child); coq/IH5/Overlay.v uses segment lists",
+    },
 }
 
-PROPS: Dict[str, List[str]] = {"C16": ["plugins", "types", "interface"], "C08": ["utils"], "C03": ["record"], "C19": ["hashsums"], "C04": ["chain"], "C18": ["diff"], "C07": ["tocschemas"]}
+PROPS: Dict[str, List[str]] = {"C16": ["plugins", "types", "interface"], "C08": ["utils"], "C03": ["record"], "C19": ["hashsums"], "C04": ["chain"], "C18": ["diff"], "C07": ["tocschemas"], "C01": ["ovpaths"]}
 
 TRUSTED = ("generated tie (coverage.generated_tie): tools/py2coq.py (fail-closed Python->Gallina translator, ~1500 lines) and "
            "coq/Gen/PyLib.v (meaning of the Python builtins it emits: str.startswith/find/split/join/slices, len, list "
